@@ -1,4 +1,5 @@
 import EmmetProofs.CssMatchB
+import EmmetProofs.CssInwardB
 /-! # C10 — CSS matcher returns the innermost rule or declaration (layer B: over event streams of stylesheet trees)
 
 `Sheet` ranges over all trees of rules (selector, body, closing brace) and declarations (name, value) with arbitrary
@@ -17,6 +18,13 @@ theorem C10_outward (src : Array Ch) (pos : Int) (sh : Sheet) (h : sh.WF) (hs : 
     outwardLoop src pos sh.events [] none [] = (sh.allPost src pos []).reverse :=
   C.C10_outward src pos sh h hs
 
+/-- `balanced_inward` descends through first children: for every tree whose items start at pairwise different offsets (`starts`
+pairwise different — offsets of distinct items of a document always are) and every position, the result is `findIn`: the ranges of
+the first item in post-order (the innermost one) that contains the position, bounds included — full range then trimmed content /
+value range —, followed by the same for its first child, that one's first child, … (`Sheet.chain`); nothing when no item contains it. -/
+theorem C10_inward (src : Array Ch) (pos : Int) (sh : Sheet) (h : sh.WF) (hd : sh.starts.Pairwise (· ≠ ·)) :
+    inwardLoop src pos sh.events [] none = (sh.findIn src pos).getD [] := C.C10_inward src pos sh h hd
+
 /-- non-vacuity: `a{b:c;}d{e:f;}` — the second rule is found although it comes after the first top-level rule -/
 def exSheet : Sheet := .rule ⟨.selector, 0, 1, 1⟩ (.decl ⟨.propertyName, 2, 3, 3⟩ ⟨.propertyValue, 4, 5, 5⟩ .nil) ⟨.blockEnd, 6, 7, 6⟩
       (.rule ⟨.selector, 7, 8, 8⟩ (.decl ⟨.propertyName, 9, 10, 10⟩ ⟨.propertyValue, 11, 12, 12⟩ .nil) ⟨.blockEnd, 13, 14, 13⟩ .nil)
@@ -24,5 +32,8 @@ example : exSheet.WF ∧ exSheet.Seq := by
   simp only [exSheet, Sheet.WF, Sheet.Seq, Sheet.Before, Sheet.After, propEnd]; decide
 example : (exSheet.findPost 11).map (·.start) = some 9 ∧ (exSheet.findPost 8).map (·.start) = some 7 := by
   decide +kernel
+
+example : exSheet.starts.Pairwise (· ≠ ·) := by simp only [exSheet, Sheet.starts]; decide
+example : (exSheet.findIn #[] 7).map (·.length) = some 3 := by decide +kernel
 
 end EmmetProps
